@@ -582,6 +582,31 @@ def search_lines(vocab):
             out.append(('{"c":"COMMAND","msg":"Slow query","attr":{"ns":"d.c","command":{"aggregate":"c","pipeline":%s,"$db":"d"}}}' % (t % {'st': json.dumps(st), 'b': b})).encode())
     return out
 
+def collide_lines(vocab):
+    """systematic: a user field NAMED like each operator argument of the tables (index, path, type, subType, base64, ...) holding a planted
+    literal, in the main query-bearing contexts. Returns [(bytes, info)] with the planted cores annotated as sensitive."""
+    out = []
+    n = 0
+    for name in vocab.get('argnames', []) + vocab.get('bare_top', []):
+        if name.startswith('$') or '.' in name or not name: continue
+        kq = json.dumps(name)
+        cores = []
+        def core():
+            nonlocal n
+            n += 1; c = 'Cq%dqC' % n; cores.append(c); return c
+        cmds = [
+            '{"find":"c","filter":{%s:"%s","other":{%s:"%s"}},"$db":"d"}' % (kq, core(), kq, core()),
+            '{"find":"c","filter":{%s:{"$in":["%s",{%s:"%s"}]}},"$db":"d"}' % (kq, core(), kq, core()),
+            '{"update":"c","updates":[{"q":{%s:"%s"},"u":{"$set":{%s:"%s"}}}],"$db":"d"}' % (kq, core(), kq, core()),
+            '{"insert":"c","documents":[{%s:"%s","doc":{%s:["%s"]}}],"$db":"d"}' % (kq, core(), kq, core()),
+            '{"aggregate":"c","pipeline":[{"$match":{%s:"%s"}},{"$lookup":{"from":"x","pipeline":[{"$match":{%s:"%s"}}],"as":"j"}}],"$db":"d"}' % (kq, core(), kq, core()),
+        ]
+        for cmd in cmds:
+            l = '{"t":{"$date":"2020-01-01T00:00:00.000+00:00"},"s":"I","c":"COMMAND","id":51803,"ctx":"conn1","msg":"Slow query","attr":{"ns":"d.c","command":%s,"remote":"10.0.0.1:5"}}' % cmd
+            mine = [c for c in cores if c in cmd]
+            out.append((l.encode(), {'kind': 'grammar_collide', 'sensitive': [(c, 'string', 'user field named ' + name) for c in mine], 'sens_numbers': [], 'ip': '10.0.0.1:5', 'stats': {}, 'names': [name], 'verbs': ['collide']}))
+    return out
+
 def vocab_from_dump(dump):
     allk, argnames = [], []
     def walk(m, top):
